@@ -17,6 +17,7 @@ class FragWire(Monitor):
         self.w = world
         self.app = collections.defaultdict(list)       # conn name -> [(len, sig)] of APP messages first seen
         self.frags = {}                                # (conn name, frag_id) -> {index: bytes}, count
+        self.finished = []                             # records of ids that were reused later
         self.seen_msg = set()
 
     def on_build(self, conn, pkt, pre=None):
@@ -33,7 +34,13 @@ class FragWire(Monitor):
                     self.w.violation("fragment_without_header", {"conn": cn, "len": len(p)})
                     continue
                 fid, idx, cnt = struct.unpack(">HHH", p[:6])
-                f = self.frags.setdefault((cn, fid), {"count": cnt, "parts": {}, "bad": 0})
+                f = self.frags.get((cn, fid))
+                if f is not None and len(f["parts"]) == f["count"] and (cnt != f["count"] or f["parts"].get(idx) != p[6:]):
+                    # the 16-bit fragment id was reused for a new message: file the finished one away
+                    self.finished.append(((cn, fid), f))
+                    f = None
+                if f is None:
+                    f = self.frags[(cn, fid)] = {"count": cnt, "parts": {}, "bad": 0}
                 if cnt != f["count"] or not (1 <= idx <= cnt):
                     f["bad"] += 1
                     continue
@@ -46,6 +53,9 @@ class C06(UdpCheck):
     pid = "C06"
     budget = {"quick": 70, "thorough": 900}
     ncases = {"quick": 700, "thorough": 40000}
+    per_run_wall_s = 1500
+    chunk = 1
+    shrink_s = 30
     rule = ("case = swarm config + plan of sends in all retry modes, lengths stratified around 0, the single-datagram capacity "
             "and multiples of the fragment size (incl. enlarged last fragment), 5 content kinds (one imitating fragment "
             "headers), several fragmented messages in flight at once, over-limit sends (8 MiB+1..+1024), under loss / "
@@ -53,6 +63,8 @@ class C06(UdpCheck):
             "event-order digest")
 
     def gen(self, rng, tier, i):
+        if (i == 0) if tier == "quick" else (i % 5000 == 0):
+            return self.gen_fragwrap(rng, tier, i)
         faulty = rng.random() < 0.75
         case = gen_traffic(rng, i, tier, retries=(0, 0, 1, -1), cb_p=0.3, fault=faulty)
         cfg, plan = case["cfg"], case["plan"]
@@ -76,6 +88,33 @@ class C06(UdpCheck):
                 plan.append(op)
         case["fault_free"] = not faulty
         return case
+
+    def gen_fragwrap(self, rng, tier, i):
+        """More than 65535 fragmented messages on one connection: the 16-bit fragment id wraps and ids are reused."""
+        case = gen_traffic(rng, i, tier, nclients=1, n_msgs=2, long_latency=False, fault=False, entry="bare", settle=4.0)
+        cfg = case["cfg"]
+        cfg["mtu"] = 512
+        cap1 = limits(512)["cap1"]
+        cfg["clients"][0]["dt"] = 1 / 59
+        cfg["server"]["interval"] = 1 / 59
+        cfg["server"]["configure_after_construction"] = False
+        cfg["latency"], cfg["jitter"] = 0.003, 0.0
+        n = 65535 + 320
+        cfg["duration"] = round(1.0 + n * 2.05 / 59 + 6.0, 2)
+        cfg["stub_sleep"] = True
+        cfg["max_events"] = 100_000_000
+        cfg["phases"] = []
+        cfg["t_heal"] = cfg["duration"] - 5.0
+        cfg["stream"] = {"period": 2.05 / 59, "len": cap1 + 1, "retry": 0, "client_only": True, "stop": 1.0 + n * 2.05 / 59}
+        case["plan"] = [op for op in case["plan"] if op["op"] == "connect"]
+        case["fault_free"] = True
+        case["fragwrap"] = True
+        return case
+
+    def prepare(self, w, case):
+        if case.get("fragwrap"):
+            from checks.c04 import install_stream
+            w.after_build.append(lambda w_: install_stream(w_, case))
 
     def monitors(self, case):
         self.mon = FragWire()
@@ -126,7 +165,7 @@ class C06(UdpCheck):
                     vs.append({"kind": "oversized_app_message_on_wire", "key": "", "detail": {"len": ln, "cap1": cap1}})
                 elif s not in sent_by[who]:
                     vs.append({"kind": "app_message_on_wire_not_sent", "key": "", "detail": {"len": ln, "conn": cn}})
-        for (cn, fid), f in self.mon.frags.items():
+        for (cn, fid), f in list(self.mon.frags.items()) + self.mon.finished:
             who = name_of.get(cn)
             if f["bad"]:
                 vs.append({"kind": "inconsistent_fragment_headers", "key": "", "detail": {"conn": cn, "frag_id": fid}})
